@@ -1,7 +1,7 @@
 import QibProofs.Lemmas.QubitizationMat
 import QibProofs.Lemmas.Embed
 import QibProofs.Lemmas.GateAlgebra
-import QibGen.GatesReal
+import QibProofs.Lemmas.GateBridge
 import Mathlib.Tactic.FinCases
 import Mathlib.Data.Fin.SuccPred
 import Mathlib.Data.Fin.Tuple.Basic
@@ -201,7 +201,7 @@ theorem act_rz (a : ℝ) (t : ℕ) : (GateDesc.rz a t : GateDesc ℝ).act = ctrl
 
 /-! ### the generated closed forms as actions -/
 
-open QibGen in
+open QibGen QibRef in
 /-- `Rz(a)` (definition regenerated from `gates.py`) multiplies `|b⟩` by `e^{i·rzPhase a b}` -/
 theorem rz_generated (a : ℝ) :
     RzGate.mat a = !![Complex.exp (I * (rzPhase a false : ℝ)), 0; 0, Complex.exp (I * (rzPhase a true : ℝ))] := by
@@ -214,20 +214,20 @@ theorem rz_generated (a : ℝ) :
   rw [hc]
   ext i j; fin_cases i <;> fin_cases j <;> simp
 
-open QibGen in
+open QibGen QibRef in
 theorem x_generated : PauliXGate.mat = !![0, 1; 1, 0] := by
   simp only [PauliXGate.mat]; ext i j; fin_cases i <;> fin_cases j <;> simp
 
-open QibGen in
+open QibGen QibRef in
 theorem phase_generated (φ : ℝ) (k : ℕ) : PhaseFactorGate.mat φ k = Complex.exp (I * φ) • 1 := by
   simp only [PhaseFactorGate.mat]; congr 1; simp
 
-open QibGen in
+open QibGen QibRef in
 theorem monoMat_flip : monoMat (fun b => (!b, (0 : ℝ))) = PauliXGate.mat := by
   rw [x_generated]
   ext i j; fin_cases i <;> fin_cases j <;> simp [monoMat, b2f]
 
-open QibGen in
+open QibGen QibRef in
 theorem monoMat_rz (a : ℝ) : monoMat (fun b => (b, rzPhase a b)) = RzGate.mat a := by
   rw [rz_generated]
   ext i j; fin_cases i <;> fin_cases j <;> simp [monoMat, b2f]
